@@ -46,7 +46,12 @@ class Job:
     def __init__(self, name, cfgs, initial=None, salpha=(), balpha=(), toks=(), resets=(), clones=(), saves=(),
                  restores=(), news=(), maxdepth=10**6, keep=True, script=None, emit="EmitLast",
                  invariants=("Refines", "Safe", "InRange", "NonNeg"), noovf=True, view=True, slots=(),
-                 extra_defs="", extra_cfg="", mode="bfs", sim=None):
+                 extra_defs="", extra_cfg="", mode="bfs", sim=None, conts=(), threads=4, free_ids=None):
+        self.free_ids = free_ids
+        # a continuation ends in a sentinel op that is never enabled: exploration stops after it instead of
+        # re-exploring the whole free space around the instances the continuation created
+        self.conts = [list(c) + [{"op": "end", "i": 0}] for c in conts]
+        self.threads = threads
         self.name = name
         self.cfgs = cfgs  # {id: cfg}
         self.initial = set(cfgs.keys()) if initial is None else set(initial)
@@ -94,6 +99,8 @@ class Job:
             "mcKeep == %s" % tla(self.keep),
             "mcScript == %s" % script,
             "mcUseScript == %s" % tla(self.script is not None),
+            "mcConts == {%s}" % ",\n  ".join(tla(c) for c in self.conts),
+            "mcFreeIds == %s" % tla(set(self.cfgs.keys()) if self.free_ids is None else set(self.free_ids)),
             self.extra_defs,
             "====",
         ]
@@ -104,12 +111,15 @@ class Job:
         c.append(" KeepHistory <- mcKeep")
         c.append(" Script <- mcScript")
         c.append(" UseScript <- mcUseScript")
+        c.append(" Conts <- mcConts")
+        c.append(" FreeIds <- mcFreeIds")
         c += ["INIT Init", "NEXT Next"]
         if self.view:
             c.append("VIEW view")
         if self.noovf:
             c.append("CONSTRAINT NoOvf")
         c.append("CONSTRAINT Bounded")
+        c.append("CONSTRAINT TaintBound")
         if self.emit:
             c.append("ACTION_CONSTRAINT %s" % self.emit)
         for inv in self.invariants:
@@ -143,8 +153,11 @@ def run_tlc(job, workdir, timeout=3600, workers=1, heap="3g"):
     env = dict(os.environ)
     env["JAVA_TOOL_OPTIONS"] = "-Xss512m -Xmx%s -XX:+UseParallelGC" % heap
     t0 = time.time()
+    def limit():   # a model that prints more than 6 GB is a mistake in the plan, not something to wait for
+        import resource
+        resource.setrlimit(resource.RLIMIT_FSIZE, (6 << 30, 6 << 30))
     with open(out, "w") as fo:
-        p = subprocess.run(cmd, cwd=d, stdout=fo, stderr=subprocess.STDOUT, env=env)
+        p = subprocess.run(cmd, cwd=d, stdout=fo, stderr=subprocess.STDOUT, env=env, preexec_fn=limit)
     wall = time.time() - t0
     states = distinct = 0
     err = None
